@@ -12,7 +12,7 @@ EXPLANATION = (
     "Oracle: P equal to a prefix or synonym of record r (unique by strictness) -> r.uri_prefix ++ I, otherwise no result; "
     "expand_all = canonical expansion first, then exactly one expansion per URI-prefix synonym. The empty string is a "
     "value of every prefix variable, so the rdflib-style default prefix is in scope.")
-BOUNDS = dict(records="<= 3", prefix_synonyms="<= 2", uri_prefix_synonyms="<= 2", strings="unbounded length, full z3 alphabet",
+BOUNDS = dict(records="<= 4", prefix_synonyms="<= 2", uri_prefix_synonyms="<= 2", strings="unbounded length, full z3 alphabet",
               delimiter="':' and an arbitrary non-empty symbolic string")
 OUTSIDE = ["strings without the delimiter (C08 decides how those fail)", "more than 3 records / 2 synonyms per side",
            "non-strict converters", "CURIE prefixes that contain the delimiter (excluded by the quantifier)"]
@@ -27,6 +27,10 @@ SHAPES = [
     ("expand", [[1, 1]], False, Q, dict(params=dict(built="merge"))), ("expand", [[1, 0], [0, 1]], True, Q, dict(params=dict(built="merge"))),
     ("expand", [[2, 2]], True, T), ("expand", [[1, 1], [1, 1]], True, T, dict(budget=900, shard=6)),
     ("expand", [[1, 0], [1, 0], [1, 0]], False, T, dict(budget=1500, shard=8)),
+    ("expand", [[2, 2], [2, 2]], True, T, dict(budget=2400, shard=8)),
+    ("expand", [[1, 1], [1, 1], [1, 1]], False, T, dict(budget=3000, shard=10)),
+    ("expand", [[2, 1], [1, 2]], True, T, dict(budget=2400, shard=8, params=dict(built="merge"))),
+    ("expand", [[1, 0]] * 4, False, T, dict(budget=3000, shard=10)),
 ]
 
 
